@@ -21,10 +21,13 @@ class UserError(Exception):
 _USER_EXC_CLASSES = [UserError, TypeError, ValueError, KeyError, AssertionError, ZeroDivisionError, LookupError, OSError,
                      E.YPException, AttributeError, IndexError]
 _RAISED = []
+_ROTATE = [0]
 
 
 def user_exception(tag):
-    cls = _USER_EXC_CLASSES[sum(map(ord, tag)) % len(_USER_EXC_CLASSES)]
+    # every class gets its turn (the class used to depend on the tag alone: some were almost never raised)
+    _ROTATE[0] += 1
+    cls = _USER_EXC_CLASSES[(sum(map(ord, tag)) + _ROTATE[0]) % len(_USER_EXC_CLASSES)]
     e = cls(tag)
     del _RAISED[:-20]
     _RAISED.append(e)
